@@ -114,6 +114,13 @@ func (c *FnCtx) inspectSchema(st *State, call *ast.CallExpr, rootE ast.Expr, lit
 	}
 	// continue after the walk
 	st.pc = append(st.pc, mkEq(iv, n))
+	if alwaysTrue(lit) {
+		// the closure never prunes: every node of the subtree is among the events (assumed go/ast contract)
+		c.trustedUsed["schema: go/ast.Inspect with a function that always returns true visits every node of the subtree"] = true
+		c.quantN++
+		nv := leaf(fmt.Sprintf("in!%d", c.quantN), SInt)
+		st.pc = append(st.pc, mkForall([]Bound{{nv.Op, SInt}}, mkImplies(mk("insp_in", SBool, nv, root), c.seqContains(ev, nv)), []*Term{mk("insp_in", SBool, nv, root)}))
+	}
 }
 
 // searchSchema: sort.Search(n, f) returns the smallest index in [0,n] at which f is true, given f is monotone
@@ -260,4 +267,25 @@ func (c *FnCtx) callYield(st *State, call *ast.CallExpr) []*Term {
 	more := c.smt.freshConst("more", SBool)
 	st.ghost["$stopped"] = mkOr(st.ghost["$stopped"], mkAnd(st.guard(), mkNot(more)))
 	return []*Term{more}
+}
+
+// alwaysTrue: every return statement of the literal returns the constant true.
+func alwaysTrue(lit *ast.FuncLit) bool {
+	ok := true
+	found := false
+	ast.Inspect(lit.Body, func(n ast.Node) bool {
+		if _, nested := n.(*ast.FuncLit); nested {
+			return false
+		}
+		if r, isRet := n.(*ast.ReturnStmt); isRet {
+			found = true
+			if len(r.Results) != 1 {
+				ok = false
+			} else if id, isId := r.Results[0].(*ast.Ident); !isId || id.Name != "true" {
+				ok = false
+			}
+		}
+		return true
+	})
+	return ok && found
 }
